@@ -623,31 +623,33 @@ def run(chk, replay=None):
         # correspondence with the stamp model (C01's handler in this driver)
         an = {'dc': 'dc', 'lap': 's %s' % fstr(net.point), 'ac': 'ac %s' % fstr(net.point)}[net.analysis]
         anl = {'dc': 'dc', 'lap': 'ivp %s' % fstr(net.point), 'ac': 'ac %s' % fstr(net.point)}[net.analysis]
-        r = drv.ask1('mna.matrix %s || %s' % (an, ' || '.join(net.lines())))
-        if r.startswith('ok A'):
-            body = r[len('ok A'):]
-            ea, ez = body.split(' Z')
-            mod = {}
-            for t in ea.split():
-                k, v = t.rsplit('=', 1)
-                mod[k] = v
-            modz = {}
-            for t in ez.split():
-                k, v = t.rsplit('=', 1)
-                modz[k] = v
-            real = {}
-            for i, li in enumerate(labels):
-                for j, lj in enumerate(labels):
-                    if rowsA[i][j] != '0':
-                        real['%s,%s' % (li, lj)] = rowsA[i][j]
-            realz = {li: colZ[i] for i, li in enumerate(labels) if colZ[i] != '0'}
+        real = {}
+        for i, li in enumerate(labels):
+            for j, lj in enumerate(labels):
+                if rowsA[i][j] != '0':
+                    real['%s,%s' % (li, lj)] = rowsA[i][j]
+        realz = {li: colZ[i] for i, li in enumerate(labels) if colZ[i] != '0'}
+        # code as it is: a 'laplace' netlist is stamped without initial conditions (C15-f); patched: with them
+        tried = []
+        for which, a_ in (('zero-ic', an), ('with-ic', anl)):
+            r = drv.ask1('mna.matrix %s || %s' % (a_, ' || '.join(net.lines())))
+            if not r.startswith('ok A'):
+                chk.count('model', 'mna:' + r[:30])
+                continue
+            ea, ez = r[len('ok A'):].split(' Z')
+            mod = dict(t.rsplit('=', 1) for t in ea.split())
+            modz = dict(t.rsplit('=', 1) for t in ez.split())
+            tried.append((which, mod, modz))
+            if mod == real and modz == realz:
+                if an != anl and net.has_ic():
+                    chk.count('mna-variant', which)
+                break
+        if tried:
             chk.coverage['correspondence']['compared'] += 1
-            if mod != real or modz != realz:
+            if not any(mod == real and modz == realz for (_, mod, modz) in tried):
                 chk.coverage['correspondence']['disagreements'] += 1
                 disagreements.append({'what': 'MNA matrices', 'netlist': net.lines(), 'analysis': an,
-                                      'lcapy_A': real, 'model_A': mod, 'lcapy_Z': realz, 'model_Z': modz})
-        else:
-            chk.count('model', 'mna:' + r[:30])
+                                      'lcapy_A': real, 'model_A': tried[0][1], 'lcapy_Z': realz, 'model_Z': tried[0][2]})
         # the Laws spec itself on the reported solution (hypothesis of nodal_eqs_hold / mesh_eqs_hold)
         assign = 'V ' + ' '.join('%s=%s' % (n, x) for n, x in zip(nodes, xs[:len(nodes)])) + \
                  ' J ' + ' '.join('%s=%s' % (b, x) for b, x in zip(brs, xs[len(nodes):]))
